@@ -20,6 +20,7 @@ import (
 	"os"
 	"runtime"
 	"sync"
+	"time"
 
 	"go.uber.org/zap"
 	"go.uber.org/zap/zapcore"
@@ -28,6 +29,7 @@ import (
 	"github.com/drshriveer/gtools/log"
 
 	"gtverif/internal/gal"
+	"gtverif/internal/logvocab"
 )
 
 type op struct {
@@ -98,9 +100,27 @@ type scase struct {
 	Thread int        `json:"threads"`
 }
 
-func zfield(k uint64) zap.Field { return zap.Int64(fmt.Sprintf("f%d", k%7), int64(k)) }
+func zfield(k uint64) zap.Field { return logvocab.Field(k) }
+
+// scratch is the ONE slice the harness passes fields in - as a worker loop with a pooled buffer
+// would: every call gets scratch[:n] (spare capacity behind it), and as soon as the call has
+// returned the slots are overwritten.  The package must have copied what it wants to keep.
+var scratch = make([]zap.Field, 16)
 
 func zfields(ks []uint64) []zap.Field {
+	if len(ks) > len(scratch) {
+		scratch = make([]zap.Field, 2*len(ks))
+	}
+	out := scratch[:len(ks)]
+	for i, k := range ks {
+		out[i] = zfield(k)
+	}
+	return out
+}
+
+// zfieldsFresh: a slice of its own (the free-running goroutines of the stress mode must not share
+// the scratch slice).
+func zfieldsFresh(ks []uint64) []zap.Field {
 	out := make([]zap.Field, len(ks))
 	for i, k := range ks {
 		out[i] = zfield(k)
@@ -108,13 +128,14 @@ func zfields(ks []uint64) []zap.Field {
 	return out
 }
 
-// fieldID maps a captured field back; a field that is not one of ours gets a large id.
-func fieldID(f zapcore.Field) uint64 {
-	if f.Type == zapcore.Int64Type && f.Integer >= 0 && f.Key == fmt.Sprintf("f%d", uint64(f.Integer)%7) {
-		return uint64(f.Integer)
+func poison(fs []zap.Field) {
+	for i := range fs {
+		fs[i] = logvocab.Poison()
 	}
-	return 1 << 40
 }
+
+// fieldID maps a captured field back; a field that is not one of ours gets a large id.
+func fieldID(f zapcore.Field) uint64 { return logvocab.ID(f) }
 
 var levels = []zapcore.Level{zapcore.DebugLevel, zapcore.InfoLevel, zapcore.WarnLevel, zapcore.ErrorLevel}
 
@@ -143,7 +164,7 @@ func (s *sinks) install(g globalSpec) {
 	s.all = append(s.all, logs)
 	lg := zap.New(core)
 	if len(g.Fields) > 0 {
-		lg = lg.With(zfields(g.Fields)...)
+		lg = lg.With(zfieldsFresh(g.Fields)...)
 	}
 	if g.Wrap != nil {
 		lg = log.CustomLevelLogger(lg, zapcore.Level(*g.Wrap))
@@ -151,7 +172,15 @@ func (s *sinks) install(g globalSpec) {
 	zap.ReplaceGlobals(lg)
 }
 
-func probe(ctx context.Context, logs *sinks) cobs {
+func probe(ctx context.Context, logs *sinks) (res cobs) {
+	defer func() {
+		if p := recover(); p != nil {
+			crashed = true
+		}
+		if crashed {
+			res = cobs{Fields: []uint64{}, Mask: 0, Full: [][][]uint64{{{1 << 41}}}}
+		}
+	}()
 	logs.TakeAll()
 	full := make([][][]uint64, len(levels))
 	var mask uint64
@@ -221,18 +250,34 @@ func same(a, b []uint64) bool {
 }
 
 // apply executes one operation on the real package and returns the context it yields.
-func apply(i int, o op, ctxs []context.Context, logs *sinks, cancels *[]context.CancelFunc) context.Context {
+// crashed: an operation or a probe of the current case panicked (the case is then emitted with
+// an irregular observation, i.e. as a failing input - a crash must not lose the input)
+var crashed bool
+
+func apply(i int, o op, ctxs []context.Context, logs *sinks, cancels *[]context.CancelFunc) (r context.Context) {
 	var c context.Context = context.TODO()
 	if o.Ctx >= 0 && o.Ctx < len(ctxs) {
 		c = ctxs[o.Ctx]
 	}
+	defer func() {
+		if p := recover(); p != nil {
+			crashed = true
+			r = c
+		}
+	}()
 	switch o.Op {
 	case "Init":
-		return log.InitLogger(c, zfields(o.Fields)...)
+		fs := zfields(o.Fields)
+		defer poison(fs)
+		return log.InitLogger(c, fs...)
 	case "Child":
-		return log.ChildLogger(c, zfields(o.Fields)...)
+		fs := zfields(o.Fields)
+		defer poison(fs)
+		return log.ChildLogger(c, fs...)
 	case "With":
-		return log.WithFields(c, zfields(o.Fields)...)
+		fs := zfields(o.Fields)
+		defer poison(fs)
+		return log.WithFields(c, fs...)
 	case "SetLevel":
 		return log.SetLevel(c, zapcore.Level(o.Level))
 	case "EnableDebug":
@@ -240,7 +285,21 @@ func apply(i int, o op, ctxs []context.Context, logs *sinks, cancels *[]context.
 	case "Global":
 		logs.install(globalSpec{Level: o.Level, Fields: o.Fields})
 		return context.TODO()
-	default: // Derive: a context derived for an unrelated reason
+	default: // Derive: a context derived for an unrelated reason; Level selects how
+		switch o.Level {
+		case 1: // cancelled while still in use (Log on a done context is still Log)
+			r, cancel := context.WithCancel(c)
+			cancel()
+			return r
+		case 2: // deadline already exceeded
+			r, cancel := context.WithDeadline(c, time.Unix(1, 0))
+			*cancels = append(*cancels, cancel)
+			return r
+		case 3:
+			r, cancel := context.WithCancel(c)
+			*cancels = append(*cancels, cancel)
+			return r
+		}
 		if i%2 == 0 {
 			return context.WithValue(c, otherKey{i}, i)
 		}
@@ -252,6 +311,7 @@ func apply(i int, o op, ctxs []context.Context, logs *sinks, cancels *[]context.
 
 // runSeq executes the operations on the real package.
 func runSeq(g globalSpec, ops []op) [][]dobs {
+	crashed = false
 	logs := installGlobal(g)
 	ctxs := []context.Context{context.TODO()}
 	prev := []cobs{probe(ctxs[0], logs)}
@@ -285,6 +345,7 @@ func runSeq(g globalSpec, ops []op) [][]dobs {
 // runSparse executes the operations and calls Log(ctx) only where the plan says so, and on every
 // context once the whole history has run.
 func runSparse(g globalSpec, ops []op, plan []probePt) []pobs {
+	crashed = false
 	logs := installGlobal(g)
 	ctxs := []context.Context{context.TODO()}
 	var cancels []context.CancelFunc
@@ -420,7 +481,7 @@ func (g *gen) fields(max int) []uint64 {
 		if g.next > 3 && g.r.IntN(10) == 0 {
 			out[i] = 1 + g.r.Uint64N(g.next-1) // the very same field again
 		} else {
-			out[i] = g.next
+			out[i] = logvocab.Canon(g.next)
 			g.next++
 		}
 	}
@@ -483,7 +544,7 @@ func (g *gen) randomOps(n int, nearmiss bool) []op {
 		case x < 90:
 			ops = append(ops, op{Op: "EnableDebug", Ctx: c})
 		default:
-			ops = append(ops, op{Op: "Derive", Ctx: c})
+			ops = append(ops, op{Op: "Derive", Ctx: c, Level: g.r.IntN(4)})
 		}
 	}
 	return ops
@@ -497,7 +558,7 @@ func (g *gen) one1() []uint64 {
 	}
 	out := make([]uint64, n)
 	for i := range out {
-		out[i] = g.next
+		out[i] = logvocab.Canon(g.next)
 		g.next++
 	}
 	return out
@@ -532,7 +593,7 @@ func (g *gen) chainOps(n int) []op {
 			c := share[g.r.IntN(len(share))]
 			switch x := g.r.IntN(20); {
 			case x == 0:
-				share = append(share, add(op{Op: "Derive", Ctx: c}))
+				share = append(share, add(op{Op: "Derive", Ctx: c, Level: g.r.IntN(4)}))
 			case x == 1:
 				share = append(share, add(op{Op: "SetLevel", Ctx: c, Level: g.level()}))
 			case x == 2:
@@ -594,7 +655,8 @@ func sparseCorpus(out *gal.Out) {
 	info := globalSpec{Level: 0, Fields: []uint64{}}
 	w := func(c int, k uint64) op { return op{Op: "With", Ctx: c, Fields: []uint64{k}} }
 	ch := func(c int, ks ...uint64) op { return op{Op: "Child", Ctx: c, Fields: ks} }
-	for _, k := range []int{1, 2, 3, 4, 5, 6, 7, 8} {
+	// sizes around the growth thresholds of slices (and beyond the 25 operations of the random streams)
+	for _, k := range []int{1, 2, 3, 4, 5, 6, 7, 8, 9, 16, 17, 33} {
 		// a logger that collected k fields one call at a time is forked twice; then the parent
 		// and both children each collect one more
 		ops := []op{{Op: "Init", Ctx: 0}}
@@ -613,6 +675,22 @@ func sparseCorpus(out *gal.Out) {
 			op{Op: "EnableDebug", Ctx: p + 3})
 		emitSparse(out, "sparsecorpus", info, ops, nil)
 	}
+	// many fields in one call (9, 17, 33), then forks and more
+	for _, n := range []int{9, 17, 33} {
+		var many []uint64
+		for i := 0; i < n; i++ {
+			many = append(many, uint64(100+i))
+		}
+		emitSparse(out, "sparsecorpus", info, []op{{Op: "Init", Ctx: 0, Fields: many[:n/2]}, {Op: "With", Ctx: 1, Fields: many},
+			ch(2, 20), ch(2, 21), w(2, 22), {Op: "SetLevel", Ctx: 3, Level: 1}, w(4, 23)}, nil)
+	}
+	// the global logger is replaced between the creation of a logger and its first use
+	emitSparse(out, "sparsecorpus", info, []op{{Op: "Init", Ctx: 0, Fields: []uint64{1}}, {Op: "Global", Level: -1, Fields: []uint64{7}}}, nil)
+	emitSparse(out, "sparsecorpus", info, []op{{Op: "Init", Ctx: 0, Fields: []uint64{1}}, {Op: "Global", Level: 2, Fields: []uint64{7}},
+		w(1, 2), {Op: "Init", Ctx: 0, Fields: []uint64{3}}, {Op: "Global", Level: 0}, ch(1, 4), ch(4, 5)}, nil)
+	// names an encoder uses itself, the empty name, every field kind, the same key twice
+	emitSparse(out, "sparsecorpus", info, []op{{Op: "Init", Ctx: 0, Fields: []uint64{7, 8, 9}}, {Op: "With", Ctx: 1, Fields: []uint64{10, 11, 12}},
+		ch(2, 13, 14, 18, 19), {Op: "With", Ctx: 3, Fields: []uint64{31, 55, 7, 37, 40}}, {Op: "Derive", Ctx: 4, Level: 1}, {Op: "Derive", Ctx: 4, Level: 2}}, nil)
 	// fields given in one call, on the holder-less root, after InitLogger over an existing holder
 	emitSparse(out, "sparsecorpus", info, []op{{Op: "Init", Ctx: 0, Fields: []uint64{1, 2, 3}}, ch(1, 4), ch(1, 5), w(1, 6)}, nil)
 	emitSparse(out, "sparsecorpus", info, []op{w(0, 1), w(1, 2), w(2, 3), ch(3, 4), ch(3, 5), w(0, 6), ch(0, 7)}, nil)
@@ -639,6 +717,12 @@ func corpus(out *gal.Out) {
 	emit(out, "corpus", warn, []op{{Op: "Init", Ctx: 0, Fields: []uint64{1}}, {Op: "Init", Ctx: 1, Fields: []uint64{2}},
 		{Op: "With", Ctx: 2, Fields: []uint64{3}}, {Op: "Child", Ctx: 3, Fields: []uint64{4}},
 		{Op: "SetLevel", Ctx: 4, Level: 0}, {Op: "EnableDebug", Ctx: 4}})
+	// names an encoder uses itself (level ts msg caller logger stacktrace error), the empty name,
+	// the field kinds; contexts that are done (cancelled, deadline exceeded) while still used
+	emit(out, "corpus", info, []op{{Op: "Init", Ctx: 0, Fields: []uint64{7, 8, 9}}, {Op: "With", Ctx: 1, Fields: []uint64{10, 11, 12}},
+		{Op: "Child", Ctx: 2, Fields: []uint64{13, 14, 18, 19}}, {Op: "With", Ctx: 3, Fields: []uint64{31, 55, 7, 37, 40, 43, 46}},
+		{Op: "Derive", Ctx: 4, Level: 1}, {Op: "Derive", Ctx: 4, Level: 2}, {Op: "With", Ctx: 5, Fields: []uint64{20, 21}},
+		{Op: "SetLevel", Ctx: 6, Level: -1}, {Op: "Child", Ctx: 6, Fields: []uint64{22, 25, 28, 34}}})
 	// forks do not leak fields either way; derived contexts share
 	emit(out, "corpus", info, []op{{Op: "Init", Ctx: 0, Fields: []uint64{1}}, {Op: "Derive", Ctx: 1}, {Op: "Child", Ctx: 2, Fields: []uint64{2}},
 		{Op: "With", Ctx: 2, Fields: []uint64{3}}, {Op: "With", Ctx: 3, Fields: []uint64{4}}, {Op: "Init", Ctx: 3, Fields: []uint64{5}},
@@ -806,7 +890,7 @@ func stress(out *gal.Out, g *gen, n int) {
 				<-start
 				for _, o := range p {
 					if o.Op == "With" {
-						log.WithFields(cx, zfields(o.Fields)...)
+						log.WithFields(cx, zfieldsFresh(o.Fields)...)
 					} else {
 						log.SetLevel(cx, zapcore.Level(o.Level))
 					}
@@ -817,7 +901,7 @@ func stress(out *gal.Out, g *gen, n int) {
 		wg.Wait()
 		for _, o := range tail {
 			if o.Op == "With" {
-				log.WithFields(base, zfields(o.Fields)...)
+				log.WithFields(base, zfieldsFresh(o.Fields)...)
 			} else {
 				log.SetLevel(base, zapcore.Level(o.Level))
 			}
@@ -863,6 +947,9 @@ func main() {
 				ln = *maxLen
 			}
 			var ops []op
+			// a quarter of the cases also replace the global logger between operations: a logger
+			// must start from the global logger of its creation, not of its first use
+			g.swap = i%4 == 3
 			if i%2 == 0 {
 				ops = g.chainOps(ln)
 			} else {
